@@ -191,6 +191,22 @@ def run_one(seed, preset=None, tier="quick", want_case=False):
             for path, (ty, what, is_res, val) in chosen.items():
                 if what == "item" and plan.item_sites[path][0] is l2 and plan.item_sites[path][1] == i2:
                     tainted[p2] = (types.get(p2, ty), val)
+    # several corruptions may hit ONE slot (two aliases of a default-resolved field, the same list
+    # item through two aliases): what the engine reads is the last value written
+    for p2 in list(tainted):
+        if p2 in type_override:
+            continue
+        if p2 in plan.item_sites and not (p2 in chosen and chosen[p2][1] == "field" and chosen[p2][2]):
+            lst2, i2 = plan.item_sites[p2]
+            if isinstance(lst2, list) and i2 < len(lst2):
+                tainted[p2] = (tainted[p2][0], lst2[i2])
+        elif p2 in plan.default_sites:
+            obj2, fd2 = plan.default_sites[p2]
+            try:
+                final = obj2[fd2.name] if isinstance(obj2, dict) else (obj2.__dict__[fd2.name] if fd2.impl == "attr" else obj2._keys[fd2.name])
+                tainted[p2] = (tainted[p2][0], final)
+            except Exception:  # noqa: BLE001
+                pass
     name = "%s_%d" % (ID, seed)
     try:
         engine = cook_engine(case.schema, name, cfg, sdl=case.sdl)
